@@ -1,10 +1,24 @@
 import Sessions.Proofs.Local.Basics
-import Sessions.Proofs.Local.AnomalyIP
 import Sessions.Proofs.Local.CreateNew
+import Sessions.Proofs.Local.AnomalyIP
 import Sessions.Proofs.Local.Rotation
 import Sessions.Proofs.Local.AckSaved
 import Sessions.Proofs.Local.Forged
 import Sessions.Proofs.Local.Invalid
 import Sessions.Proofs.Local.Expiry
 import Sessions.Proofs.Local.Anomaly
+import Sessions.Proofs.Local.Faults
 import Sessions.Proofs.Local.Cookies
+/-!
+# T-local proofs (one operation from an arbitrary state), namespace `Sx.Loc`
+
+* `Basics`    — rewrite lemmas and single-call specifications (`Flushed`/`compact_flushed`, `cacheSet_*`, `cacheGet_spec`, equation lemmas)
+* `CreateNew` — every-oracle facts about `createNew`
+* `AckSaved`  — C09 acknowledged changes are stored (every oracle)
+* `Rotation`  — C04 rotation of session ids
+* `Forged`    — C02 forged cookies
+* `Faults`    — C11 failures are reported (every oracle)
+* `Expiry`    — C03 expiry (`Invalid` holds the shared invalid-session theorem; pure parts in `AnomalyIP`)
+* `Cookies`   — C18 cookies
+* `Anomaly`, `AnomalyIP` — C06 address / user-agent anomalies (`matchIP_canonical`, `c06_ip`, `c06_ua`, `c06_destroy`, `c06_moves`)
+-/
